@@ -523,11 +523,23 @@ most 5 `coap_ws_read` calls, each of them terminating (`ws_read_next_frame_termi
 inside its buffers; whatever the outcome (`recv_close` or not) the function goes on to `l_close`: the model's result
 is total -/
 theorem ws_close_terminates (mode : Mode) (st : Coap.M.Ws.St) (av : Bytes) :
+    drainRounds mode drainCount st av ≤ 5 ∧ (wsClose mode st av).2.2.2 ≤ drainRounds mode drainCount st av ∧
     (wsClose mode st av).2.2.2 ≤ drainCount ∧ (wsClose mode st av).2.2.1.length ≤ av.length ∧
     (RdOk drainBuf st → ∀ c ∈ drainCalls mode drainCount st av,
       (readFrame mode drainBuf (c.2.length + fsCap + 2) c.1 c.2).1 ≠ .oob) :=
-  ⟨closeDrain_calls_le mode drainCount st av, (closeDrain_ok mode drainCount st av).1,
+  ⟨(drainRounds_spec mode drainCount st av).1, (drainRounds_spec mode drainCount st av).2.1,
+   closeDrain_calls_le mode drainCount st av, (closeDrain_ok mode drainCount st av).1,
    fun h c hc => ((ws_close_drain_in_bounds mode st av h).2 c hc).2.2.1⟩
+
+/-- bounded waiting, exactly: `drainRounds` = the select() calls of the loop (tied to the code by the `rounds=` field of the
+`wsclose` / `wsself` lines, select() being wrapped in the harness).  If the peer's Close frame is not seen the loop runs
+exactly 5 rounds — each a `coap_ws_read` call or a 1 ms timeout — and then the session is closed regardless; if it
+is seen, the round that saw it is the last -/
+theorem ws_close_drain_rounds (mode : Mode) (st : Coap.M.Ws.St) (av : Bytes) :
+    ((wsClose mode st av).1 = false → drainRounds mode drainCount st av = 5) ∧
+    ((wsClose mode st av).1 = true → 1 ≤ drainRounds mode drainCount st av ∧ drainRounds mode drainCount st av ≤ 5) :=
+  ⟨(drainRounds_spec mode drainCount st av).2.2.1,
+   fun h => ⟨(drainRounds_spec mode drainCount st av).2.2.2 h, (drainRounds_spec mode drainCount st av).1⟩⟩
 
 /-- the hypothesis of `ws_close_drain_in_bounds` holds whenever the application can call `coap_ws_close`: every reader
 state the event loop leaves behind in the frame phase — from the state right after the handshake (`rd_header` holding the
